@@ -8,6 +8,7 @@ import (
 
 	"golang.org/x/tools/go/ssa"
 
+	"ivgsa/internal/cfgx"
 	"ivgsa/internal/poly"
 	"ivgsa/internal/sym"
 )
@@ -232,10 +233,7 @@ func ruleC15(c *Ctx) {
 				sq := env.SqrtSquare(off.Mul(off))
 				R.Check(okp && sq.Equal(gx.Mul(gx).Add(gy.Mul(gy))) && strings.Contains(off.String(), "sqrt"), key+":offset", pos, "sqrt(gx^2 + gy^2)", off.String())
 			}
-			if sh != "ShapeLinear" {
-				continue
-			}
-			// interpolation and end colours: classify the returns
+			// interpolation and end colours: classify the returns (both shapes: everything after the offset is shared)
 			R.Use("C15.3")
 			oT := sym.Call("Clamp", f64, clamp.Args...)
 			ri := fieldIndex(gradT, "Ranges")
@@ -258,7 +256,7 @@ func ruleC15(c *Ctx) {
 						continue // no ranges at all
 					}
 					sawTransparent = true
-					R.Check(impliesLit([]*sym.Term{g}, sym.Not(nonneg)) , key+":transparent", c.Pos(ev.Site), "transparent exactly when not (offset >= 0)", shortKey(g))
+					R.Check(impliesLit([]*sym.Term{g}, sym.Not(nonneg)), key+":transparent", c.Pos(ev.Site), "transparent exactly when not (offset >= 0)", shortKey(g))
 				case val.Key() == first:
 					sawFirst = true
 					o0 := fmt.Sprintf("$init:deref:$init:param:g.%d[0].0", ri)
@@ -274,7 +272,21 @@ func ruleC15(c *Ctx) {
 				case val.Key() == last:
 					sawLast = true
 					// reached only after the loop over all ranges is exhausted
-					R.Check(len(fr.Headers()) == 1, key+":last", c.Pos(ev.Site), "Last after every range has been tried", "")
+					okLast := len(fr.Headers()) == 1
+					if okLast {
+						hb := at.Blocks[fr.Headers()[0]]
+						rb := ev.Site.Block()
+						// the return lies behind the loop: dominated by its header and not part of it
+						okLast = hb.Dominates(rb) && rb != hb
+						if cfl := cfgx.New(at, nil); okLast {
+							for _, b := range cfl.Loops[hb.Index] {
+								if b == rb.Index {
+									okLast = false
+								}
+							}
+						}
+					}
+					R.Check(okLast, key+":last", c.Pos(ev.Site), "Last only after every range has been tried (the return is reached through the loop's exit)", "")
 				case val.Op == "agg" && len(val.Args) == 4:
 					sawInterp = true
 					// range fields: Offset0, Offset1, Width, R0,R1,G0,G1,B0,B1,A0,A1
@@ -323,6 +335,8 @@ func ruleC15(c *Ctx) {
 						}
 					}
 					R.Check(inRange == 2, key+":interpolate:range", c.Pos(ev.Site), "when Offset0 <= o <= Offset1", shortKey(g))
+				default:
+					R.Bad(key+":return", c.Pos(ev.Site), "every return is transparent, the first colour, an interpolated colour or the last colour", shortKey(val))
 				}
 			}
 			R.Check(sawTransparent && sawFirst && sawLast && sawInterp, key+":cases", pos, "transparent, first, interpolated, last", fmt.Sprintf("%v %v %v %v", sawTransparent, sawFirst, sawInterp, sawLast))
